@@ -330,6 +330,11 @@ func c03Run(c *Ctx) {
 
 func c03Handwritten() []string {
 	return []string{
+		// a function declared inside a branch / loop body of a function, escaping, called after its creator returned (and after
+		// other calls): it still reads and assigns the creator's parameter and locals, not globals of the same name
+		Lines(Var("n", `"global n"`), Var("loc", `"global loc"`), Fun("mk", "n", " "+Var("loc", "n * 2")+" "+If("n > 0", "{ "+Fun("get", "", " loc = loc + 1; "+Ret(`n + ":" + loc`)+" ")+" "+Ret("get")+" }")+" "+Ret("nil")+" "), Var("g1", "mk(1)"), Var("g5", "mk(5)"), Fun("other", "n", " "+Var("loc", "0")+" "+Ret("n + loc")+" "), "other(100);", Print("g1()"), Print("g5()"), Print("g1()"), Print("n"), Print("loc")),
+		Lines(Var("i", "99"), Fun("handlers", "count", " "+Var("hs", "[]")+" "+Var("base", "count * 10")+" "+For(Var("i", "0"), "i < count", "i = i + 1", "{ "+Fun("h", "", " base = base + 1; "+Ret("base + count")+" ")+" hs = "+BI("append", "hs", "h")+"; }")+" "+Ret("hs")+" "), Var("hs", "handlers(2)"), Var("more", "handlers(3)"), Print("hs[0]()"), Print("hs[1]()"), Print("more[2]()"), Print("hs[0]()"), Print("i")),
+		Lines(Fun("outer", "tag", " "+Var("k", "0")+" "+While("k < 1", "{ k = k + 1; "+Fun("inner", "", " "+Ret(`tag + k`)+" ")+" "+Ret("inner")+" }")+" "), Var("fa", `outer("a")`), Var("fb", `outer("b")`), Fun("noise", "tag, k", " "+Ret("tag")+" "), `noise("z", 9);`, Print("fa()"), Print("fb()")),
 		// shadowing never modifies the outer binding; inner binding dies with its block
 		Lines(Var("a", "1"), "{", Var("a", "2"), Print("a"), "a = 3;", Print("a"), "}", Print("a")),
 		// assignment updates exactly the binding a read would return
